@@ -22,6 +22,9 @@ func init() {
 
 func c13() []*Ob {
 	return []*Ob{
+		{Prop: "C13", ID: "C13.13", Engine: "SINK(map key)", Floor: 1,
+			Desc:  "narrowing never identifies: the value of parser.GetHint (the leading fragment of a pattern, used to pick candidate token blocks) is never used as, or concatenated into, the key of a map access — in the calling function or in a repo function it is handed to. A per-request memo of resolved TIDs keyed by field + hint answers the second of two expressions with the same leading text with the first one's tokens",
+			Check: func(c *Ctx) { hintOnlyNarrows(c) }},
 		{Prop: "C13", ID: "C13.11", Engine: "PAIR(two sites)", Floor: 1,
 			Desc:  "an exact value is looked for in every block that may hold it: GetTIDsByTokenExpr hands all selected table entries to the provider, or — if it keeps only the first — SelectEntries selects by the whole value (no shortened hint)",
 			Check: func(c *Ctx) { exactValueBlocksComplete(c) }},
